@@ -820,3 +820,88 @@ func c12Username(raw []byte) string {
 }
 
 func c12StunKey(username string) []byte { return []byte("stun:" + username) }
+
+// MultiUDPMuxDefault: a connection is obtained from (and only receives traffic of) the mux that listens on
+// the requested address.
+func TestVerif_C12_MultiMux(t *testing.T) {
+	st := vfNewStats(t)
+	lf := logging.NewDefaultLoggerFactory()
+	lf.DefaultLogLevel = logging.LogLevelDisabled
+	rapid.Check(t, func(rt *rapid.T) {
+		n := rapid.IntRange(2, 3).Draw(rt, "muxes")
+		bases := make([]*c12Base, n)
+		muxes := make([]UDPMux, n)
+		for i := range bases {
+			bases[i] = newC12Base(fmt.Sprintf("10.0.%d.1:7000", i))
+			muxes[i] = NewUDPMuxDefault(UDPMuxParams{Logger: lf.NewLogger("verif"), UDPConn: bases[i]})
+			bases[i].waitReading()
+		}
+		multi := NewMultiUDPMuxDefault(muxes...)
+		defer multi.Close() //nolint:errcheck
+		if got := len(multi.GetListenAddresses()); got != n {
+			st.Fail(rt, "C12/multi/listen-addresses", "%d listen addresses for %d muxes", got, n)
+		}
+		type hk struct {
+			u string
+			k int
+		}
+		handles := map[hk]net.PacketConn{}
+		removed := map[string]bool{}
+		var ops []string
+		nOps := rapid.IntRange(1, 30).Draw(rt, "nOps")
+		for i := 0; i < nOps; i++ {
+			op := rapid.SampledFrom([]string{"getConn", "getConn", "inbound", "inbound", "inbound", "remove", "badAddr"}).Draw(rt, "op")
+			u := fmt.Sprintf("m%d", rapid.IntRange(0, 2).Draw(rt, "ufrag"))
+			k := rapid.IntRange(0, n-1).Draw(rt, "mux")
+			switch op {
+			case "getConn":
+				if removed[u] || handles[hk{u, k}] != nil {
+					continue
+				}
+				h, err := multi.GetConn(u, bases[k].local)
+				if err != nil {
+					st.Fail(rt, "C12/multi/getconn", "GetConn(%s, %s): %v", u, bases[k].local, err)
+
+					continue
+				}
+				handles[hk{u, k}] = h
+				ops = append(ops, fmt.Sprintf("getConn(%s,mux%d)", u, k))
+			case "badAddr":
+				if _, err := multi.GetConn(u, &net.UDPAddr{IP: net.IPv4(10, 9, 9, 9), Port: 7000}); err == nil {
+					st.Fail(rt, "C12/multi/unknown-address-accepted", "GetConn for an address no mux listens on succeeded")
+				}
+			case "remove":
+				multi.RemoveConnByUfrag(u)
+				removed[u] = true
+				ops = append(ops, "remove("+u+")")
+			case "inbound":
+				data := c12Stun(fmt.Sprintf("%s:r%d", u, i), true)
+				src := c12Sources[rapid.IntRange(0, 2).Draw(rt, "src")*2]
+				if !bases[k].push(c12In{data, src}) {
+					st.Inconclusive()
+					rt.Fatalf("VERIF-INCONCLUSIVE: mux worker stuck")
+				}
+				ops = append(ops, fmt.Sprintf("inbound(%s on mux%d)", u, k))
+				for key, h := range handles {
+					_ = h.SetReadDeadline(time.Now().Add(-time.Second))
+					buf := make([]byte, 2000)
+					nn, _, err := h.ReadFrom(buf)
+					shouldGet := key.u == u && key.k == k && !removed[u]
+					switch {
+					case err == nil && !shouldGet:
+						st.Fail(rt, "C12/multi/misrouted", "connection (%s,mux%d) received a datagram for %s that arrived on mux%d\nops: %s", key.u, key.k, u, k, strings.Join(ops, "; "))
+					case err != nil && shouldGet:
+						st.Fail(rt, "C12/multi/missing", "connection (%s,mux%d) did not receive its datagram: %v\nops: %s", key.u, key.k, err, strings.Join(ops, "; "))
+					case err == nil && !bytes.Equal(buf[:nn], data):
+						st.Fail(rt, "C12/multi/content", "content differs")
+					}
+				}
+			}
+		}
+		desc := fmt.Sprintf("muxes=%d %s", n, strings.Join(ops, "; "))
+		st.Record(vfHashStr(desc), len(handles) >= 2)
+		if len(handles) >= 2 && st.WantSample() {
+			st.Sample(func() string { return desc })
+		}
+	})
+}
